@@ -77,9 +77,11 @@ fn expected(t: &Tree, w: &[&str]) -> String {
     }
 }
 
-/// Class token of a failed probe. The two known families are recognised by their *scenario*
-/// (the executable hypotheses of the `_partial` theorems do not hold for this probe) and by the
-/// failure having the shape that scenario explains; everything else is a plain mismatch.
+/// Class token of a failed probe. The three families of defects this check reproduced on the
+/// unrepaired tree (since repaired; `known_findings.json`: fixed) are recognised by their
+/// *scenario* (a directory without own member, the empty archive, a probe of the wrong kind on the
+/// file system) and by the failure having the shape that scenario explains, so that a returning
+/// defect is named; everything else is a plain mismatch.
 fn classify(s: &Setup, w: &[&str], want: &str, got: &str) -> &'static str {
     let t = &s.tree;
     let id = unhexs(w[1]);
